@@ -97,19 +97,28 @@ def fuzz_leg(res, d, files, runs=None):
             os.makedirs(out, exist_ok=True)
             env = common.san_env(dict(VERIF_TMP=d))
             env['ASAN_OPTIONS'] += ':quarantine_size_mb=8:alloc_dealloc_mismatch=0'   # the target replaces operator new (allocation cap); libFuzzer's own units mix both
-            r = subprocess.run([exe, out, seeds, '-runs=%d' % per, '-seed=%d' % (common.seed() * 100 + i + 1), '-timeout=20', '-rss_limit_mb=4096',
-                                '-malloc_limit_mb=2048', '-max_len=8192', '-artifact_prefix=%s/' % out, '-print_final_stats=1', '-verbosity=0'],
-                               stdout=subprocess.PIPE, stderr=subprocess.PIPE, env=env, timeout=6 * 3600)
-            return i, r.returncode, r.stderr.decode(errors='replace'), out
+            # ASan keeps a record of every thread ever created and the file-level target starts two per execution: the process is
+            # restarted every 40 000 executions (the corpus directory carries over) so that the sanitizer's own bookkeeping stays small
+            rounds = max(1, (per + 39999) // 40000) if name == 'fz_file' else 1
+            errs = []
+            rc = 0
+            for k in range(rounds):
+                r = subprocess.run([exe, out, seeds, '-runs=%d' % (per // rounds), '-seed=%d' % (common.seed() * 100 + i + 1 + 1000 * k), '-timeout=20',
+                                    '-rss_limit_mb=6000', '-malloc_limit_mb=2048', '-max_len=8192', '-artifact_prefix=%s/' % out,
+                                    '-print_final_stats=1', '-verbosity=0'],
+                                   stdout=subprocess.PIPE, stderr=subprocess.PIPE, env=env, timeout=6 * 3600)
+                errs.append(r.stderr.decode(errors='replace'))
+                if r.returncode != 0:
+                    rc = r.returncode
+                    break
+            return i, rc, '\n'.join(errs), out
         execs = 0
         cov = 0
         crashes = 0
         with cf.ThreadPoolExecutor(common.NCPU) as ex:
             for i, rc, err, out in ex.map(one, range(common.NCPU)):
-                m = re.search(r'stat::number_of_executed_units:\s*(\d+)', err)
-                execs += int(m.group(1)) if m else 0
-                m = re.search(r'stat::new_units_added:\s*(\d+)', err)
-                cov += int(m.group(1)) if m else 0
+                execs += sum(int(x) for x in re.findall(r'stat::number_of_executed_units:\s*(\d+)', err))
+                cov += sum(int(x) for x in re.findall(r'stat::new_units_added:\s*(\d+)', err))
                 if rc != 0:
                     crashes += 1
                     key = common.sanitizer_key(err)
